@@ -92,8 +92,9 @@ Proof. exact lower_times. Qed.
    masks, jumps forwards and backwards (loops) to user labels, with or without a time argument.  Both are
    validated against AstVm itself on every run (Corr.C02.model_run: source body, and raised compiled code).
    For every body of statements covered by [wf_stmt] (assignments with any compound operator over jump-free
-   right-hand sides, ternary assignments, conditional / counting / unconditional jumps, labels, interrupts,
-   instruction calls whose arguments need no temporaries; statements disabled on the VM's difficulty are waited for and skipped),
+   right-hand sides, ternary assignments, single-variable declarations with a jump-free or ternary initialiser,
+   scope ends, empty statements, conditional / counting / unconditional jumps, labels, interrupts, instruction
+   calls whose arguments need no temporaries; statements disabled on the VM's difficulty are waited for and skipped),
    every table of intrinsics, every initial state and any number of loop iterations [fs]:
    if the source run, in strict mode, ends in a state, the lowered stream ends in EXACTLY that state -- same
    registers and locals, same time and real time, same instruction log with the same real times.
@@ -102,7 +103,11 @@ Proof. exact lower_times. Qed.
      with t after L's time): the jumps that the lowerer generates inside a statement reset the time to the
      statement's time.  Without this guard the statement is FALSE of the code: recorded finding
      c02-oracle:explicit-jump-time (corpus/C02/explicit_jump_time.txt);
-   - a NaN operand of a comparison inside a condition (the property quantifies over non-NaN floats). *)
+   - a NaN operand of a comparison inside a condition (the property quantifies over non-NaN floats);
+   - a scope end or empty statement that is the first statement at its time: the compiled code has nothing there
+     that could wait (only the final time / real time of the VM differ).
+   Scope markers are lexical in both machines: passing over a declaration or a scope end (seeking a label, or on
+   another difficulty) resets that local to its default, as RegAlloc/RegFree do in the stream. *)
 Theorem C02_body_correct :
   forall libm avail auto_casts rty lty diff dsel n0 fuel body code s',
   (forall op t, sigil_of_unop op <> None -> avail (KUnOp op t) = false) ->
@@ -114,19 +119,20 @@ Theorem C02_body_correct :
 Proof. exact body_correct_gen. Qed.
 
 (* non-vacuity of Stage C: a loop through a backward counting jump (3 iterations), a compound assignment
-   through a temporary, a ternary, `unless (a || b) goto L @ t`, calls: the premises hold, the strict source
+   through a temporary, a ternary, `unless (a || b) goto L @ t`, a declaration with a ternary initialiser, a call
+   disabled on the VM's difficulty, a scope end, calls: the premises hold, the strict source
    run ends (time 40, real time 60, 5 logged calls) and so does the lowered stream, in the same state *)
 Example C02_body_example :
   let rty := fun _ : Z => TInt in let lty := fun _ : nat => TInt in let libm := fun (_ : unop) (_ : Z) => 0 in
   exists code s' st',
-    lower_body ex_avail true rty lty 20 ex_body (mklst 0 []) = Ok (code, s') /\ length code = 25%nat /\
-    wf_body true rty lty 0 ex_body /\ fresh lty (p_mem ex_st0) 0 /\
-    sprog gen_optable libm rty lty 0 None true 10 ex_body Exec ex_st0 = Ok st' /\
+    lower_body ex_avail true rty lty 20 ex_body (mklst 1 []) = Ok (code, s') /\ length code = 34%nat /\
+    wf_body true rty lty 1 ex_body /\ fresh lty (p_mem ex_st0) 1 /\
+    sprog gen_optable libm rty lty 0 (Some 0%nat) true 10 ex_body Exec ex_st0 = Ok st' /\
     p_time st' = 40 /\ p_real st' = 60 /\ length (p_log st') = 5%nat /\ regs (p_mem st') 1011 = VInt 27 /\
-    wprog gen_optable libm lty None 10 code Exec ex_st0 None = Ok st'.
+    wprog gen_optable libm lty (Some 0%nat) 10 code Exec ex_st0 None = Ok st'.
 Proof. exact body_example. Qed.
 
-(* The full property, for reference.  Not yet a theorem: declarations, instruction
+(* The full property, for reference.  Not yet a theorem: multi-variable declarations, instruction
    calls with complex arguments, difficulty switches inside expressions, ternaries nested inside
    arithmetic, and the composition with register allocation
    (Proofs/RegAllocSem.v, regalloc_simulates).  Those parts are covered by the structural correspondence (model lowering =
